@@ -24,6 +24,11 @@ def contracts(tier):
     return A.CONTRACTS
 
 
+def _update_params_coherence():
+    from contracts import codegen_c01
+    return codegen_c01.update_params_obligations()
+
+
 def _update_coherence():
     from contracts import codegen_c01
     return codegen_c01.update_coherence_obligations()
@@ -34,7 +39,8 @@ def extra_obligations(tier):
             solve.custom_result('assemble_tools_cy:assemble_vector[ravel-lemma]', A.F, 'assemble_vector / next_lexicographic', A.ravel_successor_lemma),
             solve.custom_result('assemblers:kernel-frames', 'pyiga/assemblers.pyx', 'entry_impl / combine', A.kernel_frame_obligations),
             solve.custom_result('assemble_tools_cy:transpose-tables', A.F, 'generic_assemble_core_vec_*d', A.transpose_table_obligations),
-            solve.custom_result('codegen:update-coherence', 'pyiga/codegen/cython.py', 'AsmGenerator.generate_update', _update_coherence)] + \
+            solve.custom_result('codegen:update-coherence', 'pyiga/codegen/cython.py', 'AsmGenerator.generate_update', _update_coherence),
+            solve.custom_result('codegen:update_params-coherence', 'pyiga/codegen/cython.py', 'AsmGenerator.generate_update_params', _update_params_coherence)] + \
            [solve.custom_result('mlmatrix:to_seq[lemma L=%d]' % L, mlmatrix.F, 'to_seq', (lambda L=L: mlmatrix.horner_injective(L))) for L in (2, 3)]
 
 
